@@ -43,6 +43,15 @@ theorem C17_buildP_computes (get : Bytes → Option Bytes) (root : Bytes) (pt : 
 /-- non-vacuity: a store holding one leaf unfolds to it; a store lacking the key unfolds to `missing` -/
 example : Unfolds (fun _ => none) [1] (.missing [1]) := .missing _ rfl
 
+/-- non-vacuity: a store holding an extension whose child is absent unfolds to `ext … (missing child)`; the child key is
+    the one reported -/
+example : ∃ (get : Bytes → Option Bytes) (root k : Bytes) (pt : PTree), Unfolds get root pt ∧ k ∈ allMissing pt ∧
+    hasMissing pt = true := by
+  let r : Repr := ⟨1, 1, .ext [97] [9, 9]⟩
+  refine ⟨fun k => if k = [1] then some (encode r) else none, [1], [9, 9], .ext [97] (.missing [9, 9]), ?_, by simp [allMissing],
+    by decide⟩
+  exact .ext [1] (encode r) 1 1 [97] [9, 9] _ (by simp) (by decide) (.missing _ (by simp))
+
 /-- a lookup whose walk crosses a missing node fails with "node not found": never a value, never "not present" -/
 theorem C17_lookup (pt : PTree) (q : Bytes) (h : Crosses pt q) : lookupP pt q = .nodeNotFound := lookupP_crosses pt q h
 
